@@ -5,6 +5,7 @@ package main
 
 import (
 	"fmt"
+	"go/token"
 	"go/types"
 	"strings"
 
@@ -1349,7 +1350,9 @@ func exactPositionLoopSymbolic(w *World, r *Report, f *ssa.Function, name, pos s
 		if bo, ok := stripConv(a).(*ssa.BinOp); ok && bo.Op.String() == "+" {
 			if k, isK := constInt(bo.Y); isK && k == 1 {
 				if sub, ok := stripConv(bo.X).(*ssa.BinOp); ok && sub.Op.String() == "-" {
-					if strings.HasSuffix(symOf(sub.X).String(), "portRange.high") && strings.HasSuffix(symOf(sub.Y).String(), "portRange.low") {
+					// (the difference taken in 16 bits and widened, or of the two bounds widened first: a
+					// widening conversion keeps the value)
+					if strings.HasSuffix(symOf(stripConv(sub.X)).String(), "portRange.high") && strings.HasSuffix(symOf(stripConv(sub.Y)).String(), "portRange.low") {
 						good = true
 					}
 				}
@@ -1398,11 +1401,12 @@ func exactPositionLoopSymbolic(w *World, r *Report, f *ssa.Function, name, pos s
 			nPort++
 			good := false
 			if bo, ok := stripConv(st.Val).(*ssa.BinOp); ok && bo.Op.String() == "+" {
-				x, y := bo.X, bo.Y
+				// low + trunc(i) and trunc(widen(low) + i) are the same 16-bit value
+				x, y := stripConv(bo.X), stripConv(bo.Y)
 				if strings.HasSuffix(symOf(y).String(), "portRange.low") {
 					x, y = y, x
 				}
-				if strings.HasSuffix(symOf(x).String(), "portRange.low") && stripConv(y) == ia.Index {
+				if strings.HasSuffix(symOf(x).String(), "portRange.low") && y == stripConv(ia.Index) {
 					good = true
 				}
 			}
@@ -1645,7 +1649,7 @@ func ruleCreateOnlyAppends(w *World, r *Report, prop, rule string) {
 	marks := false
 	allInstrs(f, func(i ssa.Instruction) {
 		if st, ok := i.(*ssa.Store); ok {
-			if ia, ok := st.Addr.(*ssa.IndexAddr); ok && strings.HasSuffix(symOf(ia.X).String(), ".pdrs") {
+			if ia, ok := st.Addr.(*ssa.IndexAddr); ok && strings.HasSuffix(symOf(ia.X).String(), ".pdrs") && !w.slotJustAppended(ia) {
 				bad = st
 			}
 		}
@@ -1658,6 +1662,40 @@ func ruleCreateOnlyAppends(w *World, r *Report, prop, rule string) {
 		pos = w.Pos(bad.Pos())
 	}
 	r.check(bad == nil || marks, rule, w.FuncName(f), "CreatePDR does not replace a stored PDR (or carries its allocation marks over)", pos, "append only", "CreatePDR overwrites a stored PDR with the parsed one and drops its allocIPFlag / UPAllocateFteid marks: a Create PDR that repeats an ID (with the concrete address the UPF had chosen) makes the session end without DeallocIP")
+}
+
+// slotJustAppended: the element address is xs[len(xs)-1] where xs is read back right after `xs = append(xs, e…)`
+// with at least one e — the slot the append has just added, not one that held an element before.
+func (w *World) slotJustAppended(ia *ssa.IndexAddr) bool {
+	ld, ok := ia.X.(*ssa.UnOp)
+	if !ok || ld.Op != token.MUL {
+		return false
+	}
+	key := w.keyOf(ld)
+	app, ok := w.storedJustBefore(ld).(*ssa.Call)
+	if !ok || calleeName(app) != "builtin.append" || len(app.Call.Args) != 2 || !sameKey(w.keyOf(app.Call.Args[0]), key) {
+		return false
+	}
+	// appended elements: a fresh var-args array of at least one element
+	sl, ok := app.Call.Args[1].(*ssa.Slice)
+	if !ok {
+		return false
+	}
+	al, ok := sl.X.(*ssa.Alloc)
+	if !ok {
+		return false
+	}
+	arr, ok := derefType(al.Type()).Underlying().(*types.Array)
+	if !ok || arr.Len() < 1 {
+		return false
+	}
+	// the index is len(xs)-1 of the same, grown, list
+	c, lenLoad, ok := w.lenOfKeyLoad(ia.Index, key)
+	if !ok || c != -1 {
+		return false
+	}
+	ll, ok := lenLoad.(*ssa.UnOp)
+	return ok && w.storedJustBefore(ll) == ssa.Value(app)
 }
 
 // rulePoolArgIsThePool: every parsePDR call of the session handlers is given the UPF's pool (a nil pool makes a
